@@ -7,20 +7,34 @@ import Kap.Gen.C03
 namespace Kap.Props.C03Src
 
 /-- no statement of the extracted functions has an unrecognised shape, none of the functions is missing -/
-theorem extractor_classified_everything : Kap.Gen.C03.unknownCount = 0 := by decide
+theorem extractor_classified_everything : Kap.Gen.C03.unknownCount = 0 := by
+  first | decide | fail "window.go: extract/c03 met a statement shape it does not recognise or a transcribed function is missing (Kap.Props.C03Src.extractor_classified_everything)"
 
-theorem src_insert : Kap.Gen.C03.insert = Kap.C03.Src.insert := rfl
-theorem src_purge : Kap.Gen.C03.purge = Kap.C03.Src.purge := rfl
-theorem src_points : Kap.Gen.C03.points = Kap.C03.Src.points := rfl
-theorem src_newWindowByTime : Kap.Gen.C03.newWindowByTime = Kap.C03.Src.newWindowByTime := rfl
-theorem src_timePoint : Kap.Gen.C03.timePoint = Kap.C03.Src.timePoint := rfl
-theorem src_timeBarrier : Kap.Gen.C03.timeBarrier = Kap.C03.Src.timeBarrier := rfl
-theorem src_timeBatch : Kap.Gen.C03.timeBatch = Kap.C03.Src.timeBatch := rfl
-theorem src_newWindowByCount : Kap.Gen.C03.newWindowByCount = Kap.C03.Src.newWindowByCount := rfl
-theorem src_countPoint : Kap.Gen.C03.countPoint = Kap.C03.Src.countPoint := rfl
-theorem src_countBarrier : Kap.Gen.C03.countBarrier = Kap.C03.Src.countBarrier := rfl
-theorem src_countBatch : Kap.Gen.C03.countBatch = Kap.C03.Src.countBatch := rfl
-theorem src_countPoints : Kap.Gen.C03.countPoints = Kap.C03.Src.countPoints := rfl
-theorem src_newWindow : Kap.Gen.C03.newWindow = Kap.C03.Src.newWindow := rfl
+theorem src_insert : Kap.Gen.C03.insert = Kap.C03.Src.insert := by
+  first | rfl | fail "window.go: the statement skeleton of `insert` differs from the one the model was transcribed from (Kap.Props.C03Src.src_insert)"
+theorem src_purge : Kap.Gen.C03.purge = Kap.C03.Src.purge := by
+  first | rfl | fail "window.go: the statement skeleton of `purge` differs from the one the model was transcribed from (Kap.Props.C03Src.src_purge)"
+theorem src_points : Kap.Gen.C03.points = Kap.C03.Src.points := by
+  first | rfl | fail "window.go: the statement skeleton of `points` differs from the one the model was transcribed from (Kap.Props.C03Src.src_points)"
+theorem src_newWindowByTime : Kap.Gen.C03.newWindowByTime = Kap.C03.Src.newWindowByTime := by
+  first | rfl | fail "window.go: the statement skeleton of `newWindowByTime` differs from the one the model was transcribed from (Kap.Props.C03Src.src_newWindowByTime)"
+theorem src_timePoint : Kap.Gen.C03.timePoint = Kap.C03.Src.timePoint := by
+  first | rfl | fail "window.go: the statement skeleton of `timePoint` differs from the one the model was transcribed from (Kap.Props.C03Src.src_timePoint)"
+theorem src_timeBarrier : Kap.Gen.C03.timeBarrier = Kap.C03.Src.timeBarrier := by
+  first | rfl | fail "window.go: the statement skeleton of `timeBarrier` differs from the one the model was transcribed from (Kap.Props.C03Src.src_timeBarrier)"
+theorem src_timeBatch : Kap.Gen.C03.timeBatch = Kap.C03.Src.timeBatch := by
+  first | rfl | fail "window.go: the statement skeleton of `timeBatch` differs from the one the model was transcribed from (Kap.Props.C03Src.src_timeBatch)"
+theorem src_newWindowByCount : Kap.Gen.C03.newWindowByCount = Kap.C03.Src.newWindowByCount := by
+  first | rfl | fail "window.go: the statement skeleton of `newWindowByCount` differs from the one the model was transcribed from (Kap.Props.C03Src.src_newWindowByCount)"
+theorem src_countPoint : Kap.Gen.C03.countPoint = Kap.C03.Src.countPoint := by
+  first | rfl | fail "window.go: the statement skeleton of `countPoint` differs from the one the model was transcribed from (Kap.Props.C03Src.src_countPoint)"
+theorem src_countBarrier : Kap.Gen.C03.countBarrier = Kap.C03.Src.countBarrier := by
+  first | rfl | fail "window.go: the statement skeleton of `countBarrier` differs from the one the model was transcribed from (Kap.Props.C03Src.src_countBarrier)"
+theorem src_countBatch : Kap.Gen.C03.countBatch = Kap.C03.Src.countBatch := by
+  first | rfl | fail "window.go: the statement skeleton of `countBatch` differs from the one the model was transcribed from (Kap.Props.C03Src.src_countBatch)"
+theorem src_countPoints : Kap.Gen.C03.countPoints = Kap.C03.Src.countPoints := by
+  first | rfl | fail "window.go: the statement skeleton of `countPoints` differs from the one the model was transcribed from (Kap.Props.C03Src.src_countPoints)"
+theorem src_newWindow : Kap.Gen.C03.newWindow = Kap.C03.Src.newWindow := by
+  first | rfl | fail "window.go: the statement skeleton of `newWindow` differs from the one the model was transcribed from (Kap.Props.C03Src.src_newWindow)"
 
 end Kap.Props.C03Src
